@@ -37,14 +37,14 @@ Definition pool_clean (s : state) : Prop := Forall (fun m => m = []) (pool s).
 Lemma step_clean s o : pool_clean s -> pool_clean (step s o).
 Proof.
   unfold pool_clean. intro H. destruct o; cbn.
-  - destruct (pool s) as [|m r] eqn:E; cbn; [constructor|]. rewrite E in H. now inversion H.
+  - inversion H as [E|m r Hm Hr E]; cbn; [constructor|exact Hr].
   - destruct (stack s); cbn; [assumption|]. constructor; auto.
   - destruct (stack s); cbn; assumption.
 Qed.
 Lemma step_same s o : pool_clean s -> stack (step s o) = step_fresh (stack s) o.
 Proof.
   unfold pool_clean. intro H. destruct o; cbn.
-  - destruct (pool s) as [|m r] eqn:E; cbn; [reflexivity|]. rewrite E in H. inversion H. now subst.
+  - inversion H as [E|m r Hm Hr E]; cbn; [reflexivity|now subst].
   - destruct (stack s); reflexivity.
   - destruct (stack s); reflexivity.
 Qed.
